@@ -138,18 +138,18 @@ var properties = map[string]propSpec{
 			{"documents": "0..2 rows with one nested row", "queries": "27 templates (NULL/missing operands in arithmetic, CASE, ARRAY, IF, tuples, aggregates and ORDER BY; ASYNC inside CTE, derived table and subquery read through SELECT *) covering every expression form and clause position (tuples, ARRAY, CASE, subqueries, EXISTS, IF/CONCAT, GROUP BY, joins, FIRST/LAST/UNWIND, ASYNC, CTE, derived table, ORDER/LIMIT, SETVAR/GETVAR, DISTINCT, FUSE)", "repetition": "second evaluation on an equal fresh input", "schedules": "≤1 preemption"},
 			{"documents": "same", "queries": "same", "repetition": "same", "schedules": "same"},
 		},
-		Outside: []string{"TIMESTAMP (clock)", "AWAIT (its argument is evaluated after the wait; result is schedule dependent but did not reproduce natively in 40 runs)"},
+		Outside: []string{"TIMESTAMP (clock)"},
 	},
 	"C13": {
 		Bounds: [2]map[string]any{
-			{"threads": "2 concurrent ExecReader calls (4 selector texts, cold and warm cache); 2 concurrent queries (7 templates incl. ASYNC, SPINASYNC and a PARALLEL join) on separate and on one shared document; 2 concurrent uses of distinct=>, mix=>, ranges and pipes through ExecReader and through FROM", "schedules": "every schedule with ≤2 (readers) / ≤1 (queries, selector functions) preemptions at synchronisation granularity; vector-clock happens-before race monitor"},
+			{"threads": "2 concurrent ExecReader calls (4 selector texts, cold and warm cache); 2 concurrent queries (7 templates incl. ASYNC, SPINASYNC and a PARALLEL join) on separate and on one shared document; 2 concurrent uses of distinct=>, mix=>, ranges and pipes through ExecReader and through FROM; every query of the C10/C11/C12/C13 lists plus 14 more clause/function forms run by two threads at once on separate documents (one schedule each: unsynchronised package-level state is a race under any schedule)", "schedules": "every schedule with ≤2 (readers) / ≤1 (queries, selector functions) preemptions at synchronisation granularity; vector-clock happens-before race monitor"},
 			{"threads": "3 readers; query pairs additionally pair ASYNC, SPINASYNC and the PARALLEL join with themselves", "schedules": "≤2 preemptions (readers, selector functions), ≤1 (queries)"},
 		},
 		Outside: []string{"more threads", "effects below happens-before (word tearing)"},
 	},
 	"C14": {
 		Bounds: [2]map[string]any{
-			{"rows": "0..2", "calls": "ASYNC, SPINASYNC+SPIN, ONCE, ASYNC inside a derived table and a subquery, SPINASYNC inside a subquery / derived table / EXISTS / CTE; immediate functions × 3 qualifiers", "schedules": "≤1 preemption"},
+			{"rows": "0..2", "calls": "ASYNC, AWAIT(ASYNC), SPINASYNC+SPIN, ONCE, ASYNC inside a derived table and a subquery, SPINASYNC inside a subquery / derived table / EXISTS / CTE; immediate functions × 3 qualifiers", "schedules": "≤1 preemption"},
 			{"rows": "0..3 (nested forms 0..2)", "calls": "same", "schedules": "≤2 preemptions for 0..2 rows (nested forms: 0..1), ≤1 preemption otherwise"},
 		},
 		Outside: []string{"completion of SPIN calls (not promised)"},
@@ -184,7 +184,7 @@ var properties = map[string]propSpec{
 	},
 	"C19": {
 		Bounds: [2]map[string]any{
-			{"rows": "1..2 rows with one nested row", "fault positions": "18 templates placing a fault-injecting function in WHERE, select list, HAVING, join ON (hash and nested loop), CTE body, derived table, select-list subquery, IN subquery, EXISTS, both UNION branches, RAISE_WHEN, type errors, ORDER BY, GROUP BY", "k": "none, 1..4"},
+			{"rows": "1..2 rows with one nested row", "type errors": "a wrong-shaped cell at every row position × 15 clause positions (ORDER BY keys, WHERE, select list, GROUP BY, HAVING, DISTINCT, join ON, IN subquery, aggregates, BETWEEN, CASE, UNION)", "fault positions": "18 templates placing a fault-injecting function in WHERE, select list, HAVING, join ON (hash and nested loop), CTE body, derived table, select-list subquery, IN subquery, EXISTS, both UNION branches, RAISE_WHEN, type errors, ORDER BY, GROUP BY", "k": "none, 1..4"},
 			{"rows": "1..3", "fault positions": "same", "k": "same"},
 		},
 	},
